@@ -112,6 +112,14 @@ def selection(repo: Repo, chk: Check) -> None:
 
 def _key_lambda(repo: Repo, f: Func, key: t.Optional[ast.expr]) -> t.Optional[ast.expr]:
     """A key given as the name of a one-expression function is read as the equivalent lambda."""
+    if isinstance(key, ast.Attribute) and isinstance(key.value, ast.Name):
+        # a method used unbound as the key: SrvRecord.sort_key
+        c = repo.resolve_name(key.value.id, f.mod)
+        m = c.find_method(key.attr) if hasattr(c, "find_method") else None
+        if m is not None and not m.is_staticmethod and not m.is_classmethod and len(m.params) == 1:
+            body = [b for b in m.node.body if not (isinstance(b, ast.Expr) and isinstance(b.value, ast.Constant))]
+            if len(body) == 1 and isinstance(body[0], ast.Return) and body[0].value is not None:
+                return ast.Lambda(args=m.node.args, body=body[0].value)
     if isinstance(key, ast.Name):
         r = repo.resolve_name(key.id, f.mod)
         if isinstance(r, Func):
